@@ -153,7 +153,7 @@ func runC19(p *engine.Prog, r *engine.Report) {
 			if !ok {
 				continue
 			}
-			if strings.Contains(ph.Comment, "rangeindex") {
+			if strings.Contains(ph.Comment, "rangeindex") || isCounter(ph) {
 				continue
 			}
 			if _, isMap := ph.Type().Underlying().(*types.Map); isMap && merged == nil {
@@ -302,10 +302,25 @@ func runC19(p *engine.Prog, r *engine.Report) {
 					}
 					// result must flow back into the accumulator
 					back := false
-					for _, e := range merged.Edges {
-						if e == ssa.Value(rr) {
+					seen := map[ssa.Value]bool{}
+					var flows func(v ssa.Value)
+					flows = func(v ssa.Value) {
+						if seen[v] {
+							return
+						}
+						seen[v] = true
+						if v == ssa.Value(rr) {
 							back = true
 						}
+						// a loop with a post statement joins the iteration's exits before the header
+						if ph, ok := v.(*ssa.Phi); ok && ph != merged && loop.blocks[ph.Block().Index] {
+							for _, e := range ph.Edges {
+								flows(e)
+							}
+						}
+					}
+					for _, e := range merged.Edges {
+						flows(e)
 					}
 					if !back {
 						probs = append(probs, "the merge result is used for something else")
@@ -448,4 +463,26 @@ func writesThroughParam(fn *ssa.Function, idx int, depth int) bool {
 		return false
 	}
 	return through(fn.Params[idx], 0)
+}
+
+// isCounter recognises a plain induction variable: a header phi of constants and of itself plus or minus a constant.
+// It numbers the iterations and carries nothing an iteration produced.
+func isCounter(ph *ssa.Phi) bool {
+	if b, ok := ph.Type().Underlying().(*types.Basic); !ok || b.Info()&types.IsInteger == 0 {
+		return false
+	}
+	step := false
+	for _, e := range ph.Edges {
+		switch x := e.(type) {
+		case *ssa.Const:
+		case *ssa.BinOp:
+			if _, isC := x.Y.(*ssa.Const); !isC || x.X != ssa.Value(ph) || (x.Op != token.ADD && x.Op != token.SUB) {
+				return false
+			}
+			step = true
+		default:
+			return false
+		}
+	}
+	return step
 }
